@@ -203,6 +203,17 @@ static VIA_ADD: std::sync::atomic::AtomicBool = std::sync::atomic::AtomicBool::n
 /// `VIA filewriter`: `log_to_file_and_writer` — the file writer next to a second writer (the
 /// fan-out layer `MultiWriter` serves both)
 static VIA_FW: std::sync::atomic::AtomicBool = std::sync::atomic::AtomicBool::new(false);
+/// the mode a `Logger` hands to its file writer (mirror of `Model/WMode.withoutFlushing`; the write
+/// mode cannot be changed by `reset_flw`, so the new builder must name exactly this one)
+pub fn without_flushing(m: WriteMode) -> WriteMode {
+    match m {
+        WriteMode::BufferAndFlush => WriteMode::BufferDontFlush,
+        WriteMode::BufferAndFlushWith(c, _) => WriteMode::BufferDontFlushWith(c),
+        WriteMode::Async => WriteMode::AsyncWith { pool_capa: 50, message_capa: 200, flush_interval: std::time::Duration::ZERO },
+        WriteMode::AsyncWith { pool_capa, message_capa, .. } => WriteMode::AsyncWith { pool_capa, message_capa, flush_interval: std::time::Duration::ZERO },
+        m => m,
+    }
+}
 struct NullWriter;
 impl LogWriter for NullWriter {
     fn write(&self, _now: &mut DeferredNow, _record: &Record) -> std::io::Result<()> { Ok(()) }
@@ -1029,7 +1040,8 @@ fn execute_inner(ctx: &mut Ctx, lines: &[String]) -> Vec<String> {
             }
             ["LFLUSH"] => {
                 ctx.report.count("op.LFLUSH");
-                if let Some((_, hs)) = &f.lg { hs[0].flush(); }
+                // alternately `LoggerHandle::flush` and the log facade's `Log::flush` of the boxed logger
+                if let Some((lg, hs)) = &f.lg { if li % 2 == 0 { hs[0].flush(); } else { ctx.report.count("op.LFLUSH.log-facade"); lg.flush(); } }
                 if !is_async { h.unflushed = false; }
                 "ok".into()
             }
@@ -1435,11 +1447,28 @@ fn execute_inner(ctx: &mut Ctx, lines: &[String]) -> Vec<String> {
             }
             ["RESET", rest @ ..] if rest.len() == 10 => {
                 ctx.report.count("op.RESET");
-                let w = f.ensure().clone();
+                // through the public entry point `LoggerHandle::reset_flw` when the case runs a Logger
+                let via_handle = f.via_logger && !VIA_ADD.load(std::sync::atomic::Ordering::SeqCst);
+                if via_handle && f.lg.is_none() {
+                    let (b, hd) = logger(&dir, &f.spec, &f.cfg, f.mode, &f.errchan);
+                    f.lg = Some((b, vec![hd]));
+                }
+                let w = if via_handle { None } else { Some(f.ensure().clone()) };
                 f.spec = parse_spec(&rest[..5]);
                 f.cfg = parse_cfg(&rest[5..]);
                 let b = builder(&dir, &f.spec, &f.cfg, f.bg_cleanup, f.mode);
-                let r = w.reset(&b);
+                let r = match &w {
+                    Some(w) => w.reset(&b),
+                    None => {
+                        ctx.report.count("op.RESET.via-handle");
+                        // the write mode cannot be changed by a reset: the new builder takes it from the
+                        // configuration the handle reports (a Logger hands its file writer the mode WITHOUT flushing)
+                        let hd = &f.lg.as_ref().unwrap().1[0];
+                        let _ = hd.flw_config();
+                        let b = match f.mode { Some(m) => b.write_mode(without_flushing(m)), None => b };
+                        hd.reset_flw(&b)
+                    }
+                };
                 f.moved_names.clear();
                 h.recs.clear();
                 h.reset_seen = true;
@@ -1543,12 +1572,21 @@ fn execute_inner(ctx: &mut Ctx, lines: &[String]) -> Vec<String> {
                 Err(_) => "-".into(),
             },
             ["EXIST", sel, custom] => {
-                let w = f.ensure().clone();
+                let via_handle = f.via_logger && !VIA_ADD.load(std::sync::atomic::Ordering::SeqCst);
+                if via_handle && f.lg.is_none() {
+                    let (b, hd) = logger(&dir, &f.spec, &f.cfg, f.mode, &f.errchan);
+                    f.lg = Some((b, vec![hd]));
+                }
+                let w = if via_handle { None } else { Some(f.ensure().clone()) };
                 let mut s = if sel.contains('p') { flexi_logger::LogfileSelector::default() } else { flexi_logger::LogfileSelector::none() };
                 if sel.contains('c') { s = s.with_compressed_files(); }
                 if sel.contains('r') { s = s.with_r_current(); }
                 if *custom != "_" { s = s.with_custom_current(&unhexs(&custom[1..]).unwrap()); }
-                match w.existing_log_files(&s) {
+                let listed = match &w {
+                    Some(w) => w.existing_log_files(&s),
+                    None => { ctx.report.count("op.EXIST.via-handle"); f.lg.as_ref().unwrap().1[0].existing_log_files(&s) }
+                };
+                match listed {
                     Ok(v) => {
                         let mut got: Vec<String> = v.iter().map(|p| p.file_name().unwrap().to_string_lossy().to_string()).collect();
                         got.sort();
